@@ -1,31 +1,48 @@
 (* C31 — the indexer serves exactly the recent accepted blocks and transaction results.
    Property theorems only; model in Model/Indexer.v, proofs in Proofs/Indexer_proofs.v.
 
-   Histories: any list of INotify b (Notify) and IRestart W (close + NewIndexer on the same store)
+   Histories: ANY list of INotify b (Notify) and IRestart W (close + NewIndexer on the same store)
    from [init W] (NewIndexer on an empty directory), window W >= 1.  [notifs ops] are the notified
-   blocks in order, [last_height] the height of the last one.  Hypotheses of the three theorems:
-   the notified blocks form one chain (chain_wf: equal heights / ids mean the same block, a
-   transaction id occurs once, one result per transaction), every restart uses the window W, and
-   notified heights never decrease (consecutive, gaps of any size, repeats) — [monoL]. *)
+   blocks in delivery order; the heights may come in any order: consecutive, with gaps of any size,
+   repeated, and older blocks delivered again after newer ones (what snow's
+   reprocessFromOutputToInput does after a crash).  [top_height] is the highest notified height.
+   Hypotheses: the notified blocks form one chain (chain_wf: equal heights / ids mean the same block,
+   a transaction id occurs once, one result per transaction) and every restart uses the window W.
+
+   Repaired defect (F-25, fix commit "indexer must not move backwards when an older accepted block
+   is delivered again"): Notify of a block BELOW the last height used to set lastHeight to that
+   height: GetLatestBlock went backwards while the newer blocks stayed served, more than W heights
+   could be served, and a restart in that state changed the answers (window 2, notify 5,6,7,5:
+   latest = 5 with 5,6,7 served; after a restart latest = 7 and 5 gone).  The former theorem
+   C31_older_redelivery_refuted stated that witness and the three main theorems carried a
+   "heights never decrease" hypothesis; with the fix the hypothesis is gone and the witness history
+   is covered by the theorems (see C31_ex_older below). *)
 From Coq Require Import List NArith Bool Lia.
 Import ListNotations.
 From HV Require Import Lib.AssocN Model.Indexer Proofs.Indexer_proofs.
 Local Open Scope N_scope.
 
-(* The answers are exactly the notified blocks with height in (last - W, last]:
+(* [top_height bs] is the maximum of the notified heights. *)
+Theorem C31_top_height_is_max : forall (bs : list eblock) (m : N),
+  top_height bs = Some m <-> (exists b, In b bs /\ eh b = m) /\ (forall x, In x bs -> eh x <= m).
+Proof. exact top_height_spec. Qed.
+Print Assumptions C31_top_height_is_max.
+
+(* The answers are exactly the notified blocks with height in (top - W, top]:
    by height, by id, per transaction (its block's timestamp and its own result; never an error),
-   nothing for any transaction outside, and GetLatestBlock is the last notified block.
-   Restarts at any point of the history do not appear in the right-hand sides at all. *)
+   nothing for any transaction outside, and GetLatestBlock is the notified block of height top.
+   Restarts at any point of the history do not appear in the right-hand sides at all, and neither
+   does the delivery order. *)
 Theorem C31_window : forall (W : N) (ops : list iop),
-  W <> 0 -> chain_wf (notifs ops) -> same_window W ops -> monoL None (notifs ops) ->
+  W <> 0 -> chain_wf (notifs ops) -> same_window W ops ->
   let s := irun (init W) ops in
   let bs := notifs ops in
-  (forall h b, get_by_height s h = Some b <-> In b bs /\ eh b = h /\ inwin W (last_height bs) h) /\
-  (forall i b, get_block s i = Some b <-> In b bs /\ eid b = i /\ inwin W (last_height bs) (eh b)) /\
-  (forall t b p, In b bs -> inwin W (last_height bs) (eh b) -> nth_error (etxs b) p = Some t ->
+  (forall h b, get_by_height s h = Some b <-> In b bs /\ eh b = h /\ inwin W (top_height bs) h) /\
+  (forall i b, get_block s i = Some b <-> In b bs /\ eid b = i /\ inwin W (top_height bs) (eh b)) /\
+  (forall t b p, In b bs -> inwin W (top_height bs) (eh b) -> nth_error (etxs b) p = Some t ->
      exists r, nth_error (eres b) p = Some r /\ get_tx s t = TxFound t (ets b) r) /\
-  (forall t, (forall b, In b bs -> inwin W (last_height bs) (eh b) -> ~ In t (etxs b)) -> get_tx s t = TxNone) /\
-  match last_height bs with
+  (forall t, (forall b, In b bs -> inwin W (top_height bs) (eh b) -> ~ In t (etxs b)) -> get_tx s t = TxNone) /\
+  match top_height bs with
   | None => get_latest s = (1, None)
   | Some l => exists b, In b bs /\ eh b = l /\ get_latest s = (0, Some b)
   end.
@@ -35,59 +52,86 @@ Print Assumptions C31_window.
 (* A restart at any point changes no answer, neither immediately (ops2 = []) nor after any
    continuation ops2 of the history. *)
 Theorem C31_restart_stable : forall (W : N) (ops1 ops2 : list iop),
-  W <> 0 -> chain_wf (notifs (ops1 ++ ops2)) -> same_window W (ops1 ++ ops2) -> monoL None (notifs (ops1 ++ ops2)) ->
+  W <> 0 -> chain_wf (notifs (ops1 ++ ops2)) -> same_window W (ops1 ++ ops2) ->
   answers_eq (irun (init W) (ops1 ++ IRestart W :: ops2)) (irun (init W) (ops1 ++ ops2)).
 Proof. exact restart_stable. Qed.
 Print Assumptions C31_restart_stable.
 
-(* Delivering the last notified block once more changes no answer. *)
-Theorem C31_redelivery_idempotent : forall (W : N) (ops : list iop) (pre : list eblock) (b : eblock),
-  W <> 0 -> notifs ops = pre ++ [b] -> chain_wf (notifs ops) -> same_window W ops -> monoL None (notifs ops) ->
+(* Delivering any already notified block once more — the last one or an older one, inside or
+   below the window — changes no answer. *)
+Theorem C31_redelivery_idempotent : forall (W : N) (ops : list iop) (b : eblock),
+  W <> 0 -> In b (notifs ops) -> chain_wf (notifs ops) -> same_window W ops ->
   answers_eq (irun (init W) (ops ++ [INotify b])) (irun (init W) ops).
 Proof. exact redelivery_idempotent. Qed.
 Print Assumptions C31_redelivery_idempotent.
 
-(* Without the monotonicity hypothesis the property fails for the code as it is: re-delivery of a
-   block BELOW the last height (what snow's reprocessFromOutputToInput does after a crash).
-   Window 2, blocks 5,6,7 then 5 again: the last notified height is 5 but heights 6 and 7 are still
-   served (3 blocks cached), and a restart in that state changes GetLatestBlock from 5 to 7 and drops 5.
-   Reported as KNOWN-FINDING (signature older-block-redelivered-after-newer). *)
-Definition blk (h : N) : eblock := mkE h (100 + h) (10 * h) [1000 + h] [2000 + h].
-Theorem C31_older_redelivery_refuted :
-  let ops := [INotify (blk 5); INotify (blk 6); INotify (blk 7); INotify (blk 5)] in
-  let s := irun (init 2) ops in
-  chain_wf (notifs [INotify (blk 5); INotify (blk 6); INotify (blk 7)]) /\
-  last_height (notifs ops) = Some 5 /\
-  get_by_height s 7 = Some (blk 7) /\ get_by_height s 6 = Some (blk 6) /\ get_by_height s 5 = Some (blk 5) /\
-  get_latest s = (0, Some (blk 5)) /\
-  get_latest (restart s 2) = (0, Some (blk 7)) /\ get_by_height (restart s 2) 5 = None.
-Proof.
-  cbv zeta. split; [apply table_wfb_spec; vm_compute; reflexivity|]. vm_compute. repeat split; reflexivity.
-Qed.
-Print Assumptions C31_older_redelivery_refuted.
+(* No notification moves GetLatestBlock backwards: after Notify b the latest height is at least
+   what it was and at least the height of b. *)
+Theorem C31_latest_never_backwards : forall (W : N) (ops : list iop) (b : eblock) (l : N),
+  W <> 0 -> chain_wf (notifs (ops ++ [INotify b])) -> same_window W ops ->
+  latest_height (irun (init W) ops) = Some l ->
+  exists l', latest_height (irun (init W) (ops ++ [INotify b])) = Some l' /\ l <= l' /\ eh b <= l'.
+Proof. exact latest_monotone. Qed.
+Print Assumptions C31_latest_never_backwards.
+
+(* At most W heights are served at any point of any history. *)
+Theorem C31_at_most_window_served : forall (W : N) (ops : list iop) (hs : list N),
+  W <> 0 -> chain_wf (notifs ops) -> same_window W ops ->
+  NoDup hs -> (forall h, In h hs -> get_by_height (irun (init W) ops) h <> None) ->
+  N.of_nat (length hs) <= W.
+Proof. exact served_at_most_window. Qed.
+Print Assumptions C31_at_most_window_served.
 
 (* ---------------- non-vacuity ---------------- *)
-(* window 2: 1, 2, restart, 2 again (repeat), gap to 7, 8, restart, 9 *)
-Definition ex_ops : list iop :=
-  [INotify (blk 1); INotify (blk 2); IRestart 2; INotify (blk 2); INotify (blk 7); INotify (blk 8); IRestart 2; INotify (blk 9)].
+Definition blk (h : N) : eblock := mkE h (100 + h) (10 * h) [1000 + h] [2000 + h].
 
-Example C31_ex_hyps : chain_wf [blk 1; blk 2; blk 7; blk 8; blk 9] /\ same_window 2 ex_ops /\ monoL None (notifs ex_ops).
+(* window 2: 1, 2, restart, 2 again (repeat), gap to 7, 8, older 7 again (inside the window),
+   older 2 again (below the window), restart, 9 *)
+Definition ex_ops : list iop :=
+  [INotify (blk 1); INotify (blk 2); IRestart 2; INotify (blk 2); INotify (blk 7); INotify (blk 8);
+   INotify (blk 7); INotify (blk 2); IRestart 2; INotify (blk 9)].
+
+Example C31_ex_same_window : same_window 2 ex_ops.
 Proof.
-  split; [apply table_wfb_spec; vm_compute; reflexivity|]. split.
-  - intros W' H. cbv [ex_ops In] in H. repeat (destruct H as [H|H]; [try discriminate; injection H; auto|]). destruct H.
-  - cbv [ex_ops notifs monoL blk eh]. repeat split; intros l Hl; try discriminate; injection Hl as <-; lia.
+  intros W' H. cbv [ex_ops In] in H. repeat (destruct H as [H|H]; [try discriminate; injection H; auto|]). destruct H.
 Qed.
-(* (the repeated block 2 makes [notifs ex_ops] contain blk 2 twice; chain_wf is about membership) *)
+(* (the repeated blocks make [notifs ex_ops] contain blk 2 and blk 7 more than once; chain_wf is about membership) *)
 Example C31_ex_wf : chain_wf (notifs ex_ops).
 Proof.
-  destruct C31_ex_hyps as [H _]. destruct H as [H1 H2 H3 H4].
-  assert (Hin : forall b, In b (notifs ex_ops) -> In b [blk 1; blk 2; blk 7; blk 8; blk 9]).
-  { intros b Hb. cbv [ex_ops notifs In] in Hb. cbv [In]. intuition. }
-  constructor; eauto.
+  apply (chain_wf_incl _ [blk 1; blk 2; blk 7; blk 8; blk 9]).
+  - intros b Hb. cbv [ex_ops notifs In] in Hb. cbv [In]. intuition.
+  - apply table_wfb_spec. vm_compute. reflexivity.
 Qed.
 Example C31_ex_answers :
   let s := irun (init 2) ex_ops in
+  top_height (notifs ex_ops) = Some 9 /\
   get_by_height s 9 = Some (blk 9) /\ get_block s 108 = Some (blk 8) /\ get_by_height s 7 = None /\
   get_block s 102 = None /\ get_tx s 1008 = TxFound 1008 80 2008 /\ get_tx s 1007 = TxNone /\
   get_latest s = (0, Some (blk 9)).
+Proof. vm_compute. repeat split; reflexivity. Qed.
+
+(* the history of the repaired defect: window 2, 5 6 7 then 5 again.  5 is below the window of 7: it
+   is ignored, the latest block stays 7, two heights are served and a restart changes nothing. *)
+Definition ex_older : list iop := [INotify (blk 5); INotify (blk 6); INotify (blk 7); INotify (blk 5)].
+Example C31_ex_older :
+  let s := irun (init 2) ex_older in
+  chain_wf (notifs ex_older) /\ same_window 2 ex_older /\ In (blk 5) (notifs [INotify (blk 5); INotify (blk 6); INotify (blk 7)]) /\
+  latest_height (irun (init 2) [INotify (blk 5); INotify (blk 6); INotify (blk 7)]) = Some 7 /\
+  get_latest s = (0, Some (blk 7)) /\ get_by_height s 7 = Some (blk 7) /\ get_by_height s 6 = Some (blk 6) /\
+  get_by_height s 5 = None /\ get_latest (restart s 2) = (0, Some (blk 7)) /\ get_by_height (restart s 2) 5 = None.
+Proof.
+  cbv zeta. split.
+  { apply (chain_wf_incl _ [blk 5; blk 6; blk 7]).
+    - intros b Hb. cbv [ex_older notifs In] in Hb. cbv [In]. intuition.
+    - apply table_wfb_spec. vm_compute. reflexivity. }
+  split.
+  { intros W' H. cbv [ex_older In] in H. repeat (destruct H as [H|H]; [discriminate|]). destruct H. }
+  split; [left; reflexivity|]. vm_compute. repeat split; reflexivity.
+Qed.
+(* an older block INSIDE the window is stored at its height (window 3: 5, 8, then 7): *)
+Example C31_ex_older_in_window :
+  let s := irun (init 3) [INotify (blk 5); INotify (blk 8); INotify (blk 7)] in
+  get_latest s = (0, Some (blk 8)) /\ get_by_height s 7 = Some (blk 7) /\ get_by_height s 8 = Some (blk 8) /\
+  get_by_height s 5 = None /\ get_tx s 1007 = TxFound 1007 70 2007 /\
+  get_latest (restart s 3) = (0, Some (blk 8)) /\ get_by_height (restart s 3) 7 = Some (blk 7).
 Proof. vm_compute. repeat split; reflexivity. Qed.
